@@ -116,6 +116,22 @@ func (sr *svcRun) connect(i int) bool {
 		return false
 	}
 	sr.conns = append(sr.conns, cl)
+	// The teamserver answers the Register handshake BEFORE it puts the connection into its
+	// (unlocked) client list, from the connection's own goroutine. The next connection must
+	// not authenticate while that append is pending (two appends racing lose a connection:
+	// a schedule, not a history). A request that is answered proves the connection's read
+	// loop runs, i.e. the append is done: an ExC2 registration under the name of the HTTP
+	// listener "H" is refused with an answer and changes nothing.
+	sr.reqID++
+	ok, _, got := cl.AddExC2("H", "c16-attach-barrier", fmt.Sprintf("rq%d", sr.reqID), 30*time.Second)
+	if !got {
+		sr.s.broken = "service connection never answered after attaching"
+		return false
+	}
+	if ok {
+		sr.viol("dup-name:Http+service-exc2", "an ExC2 listener was accepted under the name of the running HTTP listener \"H\"", nil)
+		return false
+	}
 	return true
 }
 
